@@ -60,17 +60,25 @@ impl Drop for Scn {
 }
 
 /// command line arguments selecting the chunker configuration / compression of a case
+/// a size as the command line accepts it: plain, with the `B` unit, or in KiB / MiB when it is a multiple
+/// (which spelling is used depends on the value only, so that a case prints the same way every time)
+pub fn size_arg(v: usize) -> String {
+    if v != 0 && v % (1 << 20) == 0 && (v >> 20) % 2 == 1 { return format!("{}MiB", v >> 20); }
+    if v != 0 && v % 1024 == 0 && (v >> 10) % 3 != 0 { return format!("{}KiB", v >> 10); }
+    if v % 5 == 0 { format!("{}B", v) } else { format!("{}", v) }
+}
+
 pub fn compress_args(c: &CompressCase) -> Vec<String> {
     let mut a: Vec<String> = vec![];
     match c.cfg.algo {
-        'F' => { a.push("--fixed-size".into()); a.push(format!("{}B", c.cfg.max)); }
+        'F' => { a.push("--fixed-size".into()); a.push(if c.cfg.max % 1024 == 0 { size_arg(c.cfg.max) } else { format!("{}B", c.cfg.max) }); }
         algo => {
             a.push("--hash-chunking".into());
             a.push(if algo == 'B' { "BuzHash".into() } else { "RollSum".into() });
-            a.push("--avg-chunk-size".into()); a.push(format!("{}", 1u64 << (c.cfg.bits + 1)));
-            a.push("--min-chunk-size".into()); a.push(format!("{}", c.cfg.min));
-            a.push("--max-chunk-size".into()); a.push(format!("{}", c.cfg.max));
-            a.push("--rolling-window-size".into()); a.push(format!("{}", c.cfg.win));
+            a.push("--avg-chunk-size".into()); a.push(size_arg(1usize << (c.cfg.bits + 1)));
+            a.push("--min-chunk-size".into()); a.push(size_arg(c.cfg.min));
+            a.push("--max-chunk-size".into()); a.push(size_arg(c.cfg.max));
+            a.push("--rolling-window-size".into()); a.push(size_arg(c.cfg.win));
         }
     }
     a.push("--hash-length".into()); a.push(format!("{}", c.hashlen));
@@ -88,7 +96,7 @@ pub fn compress_args(c: &CompressCase) -> Vec<String> {
 pub fn gen_cli_case(rng: &mut Rng, big: bool) -> CompressCase {
     let algo = *rng.pick(&['R', 'B', 'R', 'B', 'F']);
     let cfg = if algo == 'F' {
-        Cfg { algo, bits: 0, min: 0, max: if big { 1 << 16 } else { rng.range(1, 600) as usize }, win: 0 }
+        Cfg { algo, bits: 0, min: 0, max: if big { 1 << 16 } else if rng.chance(1, 5) { 1024 * rng.range(1, 4) as usize } else { rng.range(1, 600) as usize }, win: 0 }
     } else {
         let bits = if big { 12 } else { rng.range(1, 7) as u32 };
         let avg = 1usize << (bits + 1);
@@ -99,6 +107,8 @@ pub fn gen_cli_case(rng: &mut Rng, big: bool) -> CompressCase {
         match if big { 9 } else { rng.below(8) } {
             0 if win <= avg => Cfg { algo, bits, min: avg, max: avg, win },
             1 => Cfg { algo, bits, min, max, win: max },
+            // sizes that are written with units on the command line
+            2 => { let bits = rng.range(9, 11) as u32; let avg = 1usize << (bits + 1); Cfg { algo, bits, min: 1024 * rng.below((avg >> 10) as u64 + 1) as usize, max: avg + 1024 * rng.below(6) as usize, win: *rng.pick(&[16usize, 64, 1024]) } }
             _ => Cfg { algo, bits, min, max, win },
         }
     };
@@ -234,8 +244,40 @@ pub fn suite_clirt(dir: &str, seed: u64, thorough: bool, st: &mut Stats) {
                 st.violation("C01", "clone over http does not reproduce the source", &replay);
             }
         }
-        let (code5, _) = s.bita(&["info", "out.cba"], None, &[]);
+        let (code5, log5) = s.bita(&["info", "out.cba"], None, &[]);
         if code5 != 0 { st.violation("C01", "bita info fails on a fresh archive", &replay); }
+        // C11: what was requested is what the reader reports back
+        let human = |v: u64| -> String { if v > 1024 * 1024 { format!("{:.1} MiB ({} bytes)", v as f64 / 1048576.0, v) } else if v > 1024 { format!("{:.1} KiB ({} bytes)", v as f64 / 1024.0, v) } else { format!("{} bytes", v) } };
+        let mut want: Vec<String> = vec![
+            format!("Chunk hash length: {} bytes", c.hashlen),
+            format!("Source checksum: {}", hex(&b2(&c.src))),
+            format!("Source size: {}", human(c.src.len() as u64)),
+            format!("Archive size: {}", human(archive.len() as u64)),
+            format!("Chunking algorithm: {}", match c.cfg.algo { 'B' => "BuzHash", 'R' => "RollSum", _ => "Fixed Size" }),
+        ];
+        if c.cfg.algo == 'F' { want.push(format!("Fixed chunk size: {}", human(c.cfg.max as u64))); } else {
+            want.push(format!("Rolling hash window size: {}", human(c.cfg.win as u64)));
+            want.push(format!("Chunk minimum size: {}", human(c.cfg.min as u64)));
+            want.push(format!("Chunk maximum size: {}", human(c.cfg.max as u64)));
+            want.push(format!("Chunk average target size: {} (mask:", human(1u64 << (c.cfg.bits + 1))));
+        }
+        if c.comp.is_none() { want.push("Chunk compression: None".into()); }
+        if c.meta.is_empty() { want.push("Metadata: None".into()); } else {
+            want.push(format!("Metadata: {}", c.meta.iter().map(|(k, v)| format!("{}({})", k, v.len())).collect::<Vec<_>>().join(", ")));
+        }
+        st.oracle_checks += 1;
+        for w in &want {
+            if !log5.contains(w.as_str()) { st.violation("C11", &format!("bita info does not report `{}`", w), &replay); break; }
+        }
+        if let Some((t, l)) = c.comp {
+            let line = log5.lines().find(|x| x.contains("Chunk compression:")).unwrap_or("").to_lowercase();
+            let name = match t { 1 => "lzma", 2 => "zstd", _ => "brotli" };
+            if !line.contains(name) || !line.contains(&format!("{}", l)) { st.violation("C11", &format!("bita info reports the compression as `{}`, requested {} level {}", line.trim(), name, l), &replay); }
+        }
+        for (k, v) in &c.meta {
+            let out = std::process::Command::new(bita_bin()).args(["info", "--metadata-key", k, "out.cba"]).current_dir(&s.dir).output();
+            match out { Ok(o) if o.status.success() && o.stdout == *v => {} _ => { st.violation("C11", &format!("bita info --metadata-key {} does not return the stored value", k), &replay); break; } }
+        }
     }, st, &mut out);
     out.finish();
 }
